@@ -758,6 +758,40 @@ def canon_cmp(op, pl, pr):
     return "cmp(%s %s 0)" % (d.key(), op)
 
 
+def implied_cmps(v, positive=True):
+    """Comparisons implied by a guard value being true (positive) or false: list of (Cmp, holds: bool).
+    `not` flips; a true conjunction implies both conjuncts; a false disjunction implies both negations."""
+    out = []
+    if isinstance(v, Cmp):
+        out.append((v, positive))
+    elif isinstance(v, Term):
+        if v.op == "not" and v.args:
+            out += implied_cmps(v.args[0], not positive)
+        elif v.op == "bin:&&" and positive:
+            for a in v.args:
+                out += implied_cmps(a, True)
+        elif v.op == "bin:||" and not positive:
+            for a in v.args:
+                out += implied_cmps(a, False)
+        elif v.op in ("bin:&&", "bin:||"):
+            pass
+        elif v.op.startswith("call:") and v.name in ("unwrap_or", "map") or v.op.startswith("closure#"):
+            for a in v.args:
+                out += implied_cmps(a, positive)
+    return out
+
+
+def guard_relations(e, a_pred, b_pred):
+    """Relations `a OP b` that hold at event e according to its guard stack."""
+    rels = []
+    for g in e.guards:
+        for c, holds in implied_cmps(g[3], g[0] == "+"):
+            op = c.relation(a_pred, b_pred)
+            if op:
+                rels.append(op if holds else CMP_NEG[op])
+    return rels
+
+
 def walk_terms(v):
     """All sub-values of a value (pre-order)."""
     stack = [v]
